@@ -213,3 +213,25 @@ package ipam
 //@   option safety off
 //@   option callpre off
 //@   ghost at call autoAssign: check arg11 == args.Namespace && arg10 == args.IntendedUse && arg8 == args.MaxBlocksPerHost && arg3 == args.HandleID ; check arg6 == 4 ==> (arg2 == args.Num4 && arg5 == args.IPv4Pools && arg9 == args.HostReservedAttrIPv4s) ; check arg6 == 6 ==> (arg2 == args.Num6 && arg5 == args.IPv6Pools && arg9 == args.HostReservedAttrIPv6s) ; check arg6 == 4 || arg6 == 6
+
+//@ -- C20, selectors (thin): a pool that has a node / namespace selector is reported as matching ONLY on the word of
+//@ -- that selector, parsed from the pool's own selector string and evaluated - for a request without a namespace,
+//@ -- against the empty label set, never skipped
+//@ ghost c20Evaluated bool
+//@ ghost c20Verdict bool
+//@ func SelectsNamespace
+//@   property C20
+//@   option safety off
+//@   requires !c20Evaluated
+//@   ghost at call Parse: check arg0 == pool.Spec.NamespaceSelector
+//@   ghost at call Evaluate: check namespace != nil ==> arg1 == namespace.ObjectMeta.Labels ; check namespace == nil ==> len(arg1) == 0 ; c20Evaluated = true ; c20Verdict = res
+//@   ensures res0 ==> len(pool.Spec.NamespaceSelector) == 0 || (c20Evaluated && c20Verdict)
+//@   ensures c20Evaluated && !c20Verdict ==> !res0
+//@ func SelectsNode
+//@   property C20
+//@   option safety off
+//@   requires !c20Evaluated
+//@   ghost at call Parse: check arg0 == pool.Spec.NodeSelector
+//@   ghost at call Evaluate: check arg1 == n.ObjectMeta.Labels ; c20Evaluated = true ; c20Verdict = res
+//@   ensures res0 ==> len(pool.Spec.NodeSelector) == 0 || (c20Evaluated && c20Verdict)
+//@   ensures c20Evaluated && !c20Verdict ==> !res0
